@@ -1,3 +1,6 @@
+#[cfg(librqbit_utp_verif)]
+pub mod verif_driver;
+
 use std::{
     collections::{VecDeque, hash_map::Entry},
     io::IoSlice,
